@@ -32,7 +32,7 @@ NOT_APPLICABLE = {("C%02d" % i): NOT_YET for i in range(1, 21)}
 
 PROPS = {
     "C01": dict(
-        pkg="c01", units=[rapid("TestProp", 15000, 200000)], assumptions=COMMON_ASSUME,
+        pkg="c01", units=[rapid("TestProp", 15000, 200000), fuzz("FuzzApply", 90)], assumptions=COMMON_ASSUME,
         technique="property-based testing (rapid): state-aware generated operation sequences vs an independent RFC 6902 reference evaluator",
         level_text="Generated-input search: every generated (document, operation sequence, SupportNegativeIndices) is evaluated by an independent RFC 6902 model in the documented dialect and by DecodePatch+ApplyWithOptions; success/failure must agree and on success the output, read by an independent literal-preserving JSON reader, must equal the model's document. Exploration, not proof: it bounds what was tried (counts, classes and samples are in the evidence).",
         level_note="Trusted: the reference evaluator and JSON reader in harness/ref, rapid, the Go toolchain. Domain exclusions are exactly those of the property's quantifier and are counted in the evidence.",
@@ -75,25 +75,25 @@ PROPS = {
         level_note="Trusted: harness/ref recogniser and canonical writer, encoding/json.Indent of the default toolchain (cross-checked by an independent re-indenter). The byte-identity clauses are asserted only for inputs in the encoder's own spelling, as the quantifier states.",
     ),
     "C02": dict(
-        pkg="c02", units=[rapid("TestProp", 20000, 300000)], assumptions=COMMON_ASSUME,
+        pkg="c02", units=[rapid("TestProp", 20000, 300000), fuzz("FuzzMerge", 60)], assumptions=COMMON_ASSUME,
         technique="property-based testing (rapid): generated (document, merge patch) pairs vs the RFC 7396 reference algorithm",
         level_text="Generated-input search: documents and merge patches (mutations of the document so that recursion, deletion and type change at depth happen; nulls at every depth, also in objects nested inside arrays; all root types) are merged by MergePatch and by the five-line RFC 7396 algorithm on an independent tree; results must be structurally equal with number literals intact. Exploration only.",
         level_note="Trusted: harness/ref Merge and reader. Null documents and duplicate member names are outside the domain.",
     ),
     "C03": dict(
-        pkg="c03", units=[rapid("TestProp", 15000, 250000), rapid("TestPropArr", 6000, 80000), rapid("TestPropReject", 5000, 60000)], assumptions=COMMON_ASSUME,
+        pkg="c03", units=[rapid("TestProp", 15000, 250000), rapid("TestPropArr", 6000, 80000), rapid("TestPropReject", 5000, 60000), fuzz("FuzzCreate", 60)], assumptions=COMMON_ASSUME,
         technique="property-based testing (rapid): round trip create -> apply through the RFC 7396 reference and through the library, plus a minimality validity predicate; generated rejection pairs",
         level_text="Generated-input search: for object pairs (B a mutation of A, built without null members) and equal-length arrays of such pairs, the created patch must reproduce B through the reference merge and the library's MergePatch, be {} iff A=B, and pass a walk that checks every mentioned member differs, removals are nulls, nested objects hold the recursive difference and number literals are B's; pairs of other roots must be rejected. Exploration only.",
         level_note="Trusted: harness/ref. B with a null-valued member, numerically-equal-but-differently-spelled numbers, null roots and null elements are outside the stated domain (excluded, counted).",
     ),
     "C06": dict(
-        pkg="c06", units=[rapid("TestProp", 25000, 400000), rapid("TestPropTriple", 10000, 150000), rapid("TestPropMalformed", 15000, 200000)], assumptions=COMMON_ASSUME,
+        pkg="c06", units=[rapid("TestProp", 25000, 400000), rapid("TestPropTriple", 10000, 150000), rapid("TestPropMalformed", 15000, 200000), fuzz("FuzzEqual", 60)], assumptions=COMMON_ASSUME,
         technique="property-based testing (rapid): re-serialised / one-edit / independent pairs vs structural equality on an independent tree; equivalence-relation laws on pairs and triples; malformed inputs",
         level_text="Generated-input search: pairs that are equal up to member order, whitespace and escaping, pairs one small edit apart (null<->absent, {}<->[]<->null, renamed member, swapped elements...) and independent pairs are judged by Equal and by structural equality on the independent tree; symmetry, reflexivity and (on triples) transitivity are checked; malformed arguments must give false. Exploration only.",
         level_note="Trusted: harness/ref reader and Equal. Pairs with numerically-equal-but-differently-spelled numbers, lone surrogate escapes, invalid UTF-8 or duplicate names are excluded.",
     ),
     "C07": dict(
-        pkg="c07", units=[rapid("TestProp", 15000, 200000)], assumptions=COMMON_ASSUME,
+        pkg="c07", units=[rapid("TestProp", 15000, 200000), fuzz("FuzzCompose", 60)], assumptions=COMMON_ASSUME,
         technique="property-based testing (rapid): composition law checked through the RFC 7396 reference and through the library's own MergePatch",
         level_text="Generated-input search over triples (D, P1, P2) with P2 mostly a mutation of P1 and nulls at every depth: applying MergeMergePatches(P1,P2) must equal applying P1 then P2, via the reference algorithm and via the library; a non-object P2 must come back as the combined patch. Incompatible pairs are excluded by the property's own condition. Exploration only.",
         level_note="Trusted: harness/ref Merge. The compatibility condition is computed by the harness exactly as the statement gives it.",
@@ -119,7 +119,7 @@ PROPS = {
         level_note="Trusted: the Go race detector and runtime, harness/calls. A logical race on correctly synchronised state is only seen if it changes a result during the stress (DESIGN.md section 6). Package-level defaults are never written during a workload.",
     ),
     "C11": dict(
-        pkg="c11", units=[rapid("TestProp", 20000, 200000), plain("TestTable", shards=dict(quick=1, thorough=1))], assumptions=COMMON_ASSUME,
+        pkg="c11", units=[rapid("TestProp", 20000, 200000), plain("TestTable", shards=dict(quick=1, thorough=1)), fuzz("FuzzDecode", 60)], assumptions=COMMON_ASSUME,
         technique="property-based testing (rapid) over member mutations of valid patches plus an exhaustively enumerated single-mutation table; independent validator as oracle",
         level_text="Generated-input search plus a complete table of single mutations (kind x member x {delete, null, retype, rename, duplicate} and element/root/op-string changes): DecodePatch must accept exactly what the independent reader and validator accept, return a nil Patch on reject, and the accessors must return the decoded members (numbers by literal). Exploration; the table is complete for single mutations of the listed kinds only.",
         level_note="Trusted: harness/ref reader and the validator in c11 (written from the property statement). Duplicated members whose first and last occurrence disagree are ambiguous and excluded; the text null is outside the domain.",
